@@ -560,7 +560,7 @@ class TT():
         Returns:
             torchtt.TT: the result.
         """
-        if np.isscalar(other) or (tn.is_tensor(other) and other.shape == []):
+        if np.isscalar(other) or (tn.is_tensor(other) and tn.numel(other) == 1):
             # the second term is a scalar
             cores = []
 
